@@ -411,7 +411,6 @@ theorem firstNonLoss_fst {nl : Dict (List Val)} {k : String} {r : String × Val}
   split at h
   · cases h; rfl
   · cases h
-  · cases h
 
 /-- **`summarize_premium = False`, loss fields**: still the sample-wise sum over ALL cells -/
 theorem summarizeCellValues_noprem_sum_at {tr : Transc} {extra : List RuleEntry} {cells : List Cell}
@@ -460,13 +459,33 @@ theorem summarizeCellValues_noprem_sum_at {tr : Transc} {extra : List RuleEntry}
           · intro c hc
             rw [getV_eq_none_of_not_mem_valueKeys hf c hc]; rfl
 
-/-- **`summarize_premium = False`, premium/exposure fields**: the FIRST cell's entry (`None` if it lacks the
-field), not a sum -/
-theorem summarizeCellValues_noprem_first {tr : Transc} {extra : List RuleEntry} {c0 : Cell}
-    {rest : List Cell} {d : Dict Val} {f : String}
-    (h : summarizeCellValues tr extra (c0 :: rest) false = .ok d)
-    (hnl : f ∈ nonLossMetrics) (hf : f ∈ valueKeys (c0 :: rest)) :
-    d.get? f = some (c0.getV f) := by
+theorem firstValue_cons_of_ne_none {v : Val} (l : List Val) (h : v ≠ .none) : firstValue (v :: l) = v := by
+  cases v <;> first | exact absurd rfl h | rfl
+
+/-- the first non-`None` value: either every value is `None` (result `None`) or the result is a member that is not `None` -/
+theorem firstValue_spec (l : List Val) :
+    (firstValue l = .none ∧ ∀ v ∈ l, v = .none) ∨ (firstValue l ≠ .none ∧ firstValue l ∈ l) := by
+  induction l with
+  | nil => left; exact ⟨rfl, by simp⟩
+  | cons v l ih =>
+    by_cases hv : v = .none
+    · subst hv
+      have e : firstValue (Val.none :: l) = firstValue l := rfl
+      rw [e]
+      rcases ih with ⟨h1, h2⟩ | ⟨h1, h2⟩
+      · left; exact ⟨h1, by intro x hx; rcases List.mem_cons.mp hx with rfl | hx; rfl; exact h2 x hx⟩
+      · right; exact ⟨h1, List.mem_cons_of_mem _ h2⟩
+    · right
+      rw [firstValue_cons_of_ne_none l hv]
+      exact ⟨hv, List.mem_cons_self⟩
+
+/-- **`summarize_premium = False`, premium/exposure fields** (D28 repaired): the value of the FIRST cell of the group that
+has one (`None` if none has), not a sum -/
+theorem summarizeCellValues_noprem_first {tr : Transc} {extra : List RuleEntry} {cells : List Cell}
+    {d : Dict Val} {f : String}
+    (h : summarizeCellValues tr extra cells false = .ok d)
+    (hnl : f ∈ nonLossMetrics) (hf : f ∈ valueKeys cells) :
+    d.get? f = some (firstValue (cells.map fun c => c.getV f)) := by
   unfold summarizeCellValues at h
   simp only at h
   split at h
@@ -484,17 +503,14 @@ theorem summarizeCellValues_noprem_first {tr : Transc} {extra : List RuleEntry} 
           apply Dict.get?_eq_none_of_not_mem_keys
           rw [hkl, List.mem_filter]
           simp [hnl]
-        have hf' : f ∈ (valueKeys (c0 :: rest)).filter (fun k => nonLossMetrics.contains k) := by
+        have hf' : f ∈ (valueKeys cells).filter (fun k => nonLossMetrics.contains k) := by
           rw [List.mem_filter]; exact ⟨hf, by simpa using hnl⟩
         obtain ⟨v, hv, hd⟩ := (smMapE_get? hnon (fun k r hk => firstNonLoss_fst hk) f).1 hf'
         rw [Dict.get?_append, hnone, hd]
         -- what `firstNonLoss` read
-        obtain ⟨tl, htl⟩ := nonLossDistinctIndices_head c0 rest
         unfold firstNonLoss at hv
-        rw [Dict.get?_map_val, rawValues, Dict.get?_map_mk, if_pos hf, htl] at hv
-        simp only [Option.map_some, List.map_cons] at hv
-        obtain ⟨r, hr⟩ := pickIdx_head tl (c0.getV f) (rest.map fun c => c.getV f)
-        rw [hr] at hv
+        rw [rawValues, Dict.get?_map_mk, if_pos hf] at hv
+        simp only at hv
         cases hv
         rfl
 
